@@ -266,84 +266,91 @@ unsafe fn can_event() -> bool {
     mt::L[0].reg_set && !H.resolved_delivered && H.handle != 0
 }
 
-/// One import call: first poll (optional), then `rounds` rounds of
-/// "host event? ; poll?", then the future is dropped wherever it got to.
-///
-/// * `version`: task C ABI version of the mock exporting task (1 or 2);
-/// * `size`/`roff`: `abi_layout` size and results offset (0/0 = everything flat);
-/// * `distinct`: v2 only, whether `clone` hands out fresh pointers.
-unsafe fn run<const SIZE: usize, const ROFF: usize>(version: u32, rounds: usize, distinct: Option<bool>) {
-    let mut imp = Imp::<SIZE, ROFF>;
-    H.area_size = SIZE;
-
-    let mut t1 = mt::new_v1(0);
-    let mut t2 = mt::new_v2(0);
-    let task: *mut mt::wasip3_task = if version == 1 {
-        &mut t1
-    } else {
-        (&mut t2 as *mut mt::wasip3_task_v2).cast()
-    };
-    mt::CUR = task;
-    mt::CLONE_DISTINCT = match distinct {
-        Some(b) => b,
-        None => kani::any(),
-    };
-
-    let mut cx = Context::from_waker(Waker::noop());
-    let mut result: Option<Results> = None;
-    let mut polled = false;
-    let mut spurious = false;
-    {
-        let mut fut = pin!(imp.call(Params { token: TOKEN }));
-        if kani::any() {
-            polled = true;
-            match fut.as_mut().poll(&mut cx) {
-                Poll::Ready(r) => result = Some(r),
-                Poll::Pending => {
-                    assert!(mt::L[0].reg_set, "pending subtask is not registered with the task");
-                }
-            }
-            let mut i = 0;
-            while i < rounds {
-                if result.is_some() {
-                    break;
-                }
-                let mut fresh = false;
-                if kani::any() && can_event() {
-                    host_event(0);
-                    fresh = true;
-                }
-                if kani::any() {
-                    let before = mt::L[0].n_delivered;
-                    let _ = before;
-                    spurious |= !fresh && mt::L[0].reg_set;
-                    match fut.as_mut().poll(&mut cx) {
-                        Poll::Ready(r) => result = Some(r),
-                        Poll::Pending => {
-                            assert!(
-                                mt::L[0].reg_set,
-                                "pending subtask is not registered with the task"
-                            );
-                        }
-                    }
-                    assert!(mt::CUR == task, "wasip3_task_set cell not restored");
-                }
-                i += 1;
-            }
+/// Poll the call future once.
+unsafe fn step_poll<F: Future<Output = Results>>(
+    fut: core::pin::Pin<&mut F>,
+    cx: &mut Context<'_>,
+    task: *mut mt::wasip3_task,
+) -> Option<Results> {
+    let r = match fut.poll(cx) {
+        Poll::Ready(r) => Some(r),
+        Poll::Pending => {
+            assert!(mt::L[0].reg_set, "pending subtask is not registered with the task");
+            assert!(mt::L[0].reg_waitable == H.handle);
+            None
         }
-        // `fut` is dropped here: no-op if it completed, cancellation otherwise.
-    }
-    mt::OP_ALIVE = false;
-
-    // ---- ledgers -------------------------------------------------------
-    mt::assert_quiescent();
+    };
     assert!(mt::CUR == task, "wasip3_task_set cell not restored");
+    r
+}
 
-    if !polled {
-        assert!(H.lowered == 0 && H.call_imports == 0);
+/// Straight-line schedules.  `P` = poll the future, `E` = the host reports
+/// progress (always possible when the previous poll returned `Pending`: the
+/// subtask is then registered and unresolved).  The future is dropped when the
+/// script ends, or earlier as soon as a poll returns `Ready`.  Nested `if`s
+/// rather than a loop so that CBMC keeps the state-machine discriminants
+/// concrete along each path.
+macro_rules! steps {
+    ($fut:ident, $cx:ident, $task:ident, $res:ident;) => {};
+    ($fut:ident, $cx:ident, $task:ident, $res:ident; P $($rest:tt)*) => {
+        $res = step_poll($fut.as_mut(), &mut $cx, $task);
+        if $res.is_none() {
+            steps!($fut, $cx, $task, $res; $($rest)*);
+        }
+    };
+    ($fut:ident, $cx:ident, $task:ident, $res:ident; E $($rest:tt)*) => {
+        assert!(can_event(), "harness: no event possible here");
+        host_event(0);
+        steps!($fut, $cx, $task, $res; $($rest)*);
+    };
+}
+
+/// Installs the mock exporting task.
+/// * `version`: task C ABI version (1 or 2; `None` = symbolic);
+/// * v2 only: whether `clone` hands out fresh pointers is symbolic.
+macro_rules! scenario {
+    ($size:expr, $roff:expr, $version:expr; $($script:tt)*) => {{
+        let mut imp = Imp::<$size, $roff>;
+        H.area_size = $size;
+        let mut t1 = mt::new_v1(0);
+        let mut t2 = mt::new_v2(0);
+        let version: u32 = match $version {
+            Some(v) => v,
+            None => if kani::any() { 1 } else { 2 },
+        };
+        let task: *mut mt::wasip3_task = if version == 1 {
+            &mut t1
+        } else {
+            (&mut t2 as *mut mt::wasip3_task_v2).cast()
+        };
+        mt::CUR = task;
+        mt::CLONE_DISTINCT = if version == 1 { false } else { kani::any() };
+
+        let mut cx = Context::from_waker(Waker::noop());
+        #[allow(unused_assignments, unused_mut)]
+        let mut result: Option<Results> = None;
+        {
+            #[allow(unused_mut)]
+            let mut fut = pin!(imp.call(Params { token: TOKEN }));
+            steps!(fut, cx, task, result; $($script)*);
+            // `fut` is dropped here: no-op if it completed, cancellation otherwise.
+        }
+        mt::OP_ALIVE = false;
+        assert!(mt::CUR == task, "wasip3_task_set cell not restored");
+        finish(result, version);
+    }};
+}
+
+/// Ledger checks once the future is gone.
+unsafe fn finish(result: Option<Results>, version: u32) {
+    mt::assert_quiescent();
+    if version == 1 {
+        assert!(mt::L[0].clones_made == 0, "v1 task has no vtable to clone through");
     }
+
     if H.lowered == 0 {
         // never started: the parameters were dropped as a Rust value
+        assert!(H.call_imports == 0);
         assert!(H.params_rust_dropped == 1, "unstarted call: parameters not dropped exactly once");
         assert!(H.dealloc_lists == 0 && H.dealloc_lists_and_own == 0);
         assert!(H.lifted == 0 && H.drop_calls == 0 && H.cancel_calls == 0);
@@ -372,6 +379,7 @@ unsafe fn run<const SIZE: usize, const ROFF: usize>(version: u32, rounds: usize,
     if H.handle == 0 {
         assert!(H.cancel_calls == 0);
     }
+    // every event the host delivered was consumed by the state machine
     // the lifted value is the one the host stored, and is owned exactly once
     if let Some(r) = &result {
         assert!(r.val == RESULT_VAL);
@@ -379,52 +387,104 @@ unsafe fn run<const SIZE: usize, const ROFF: usize>(version: u32, rounds: usize,
     }
     let held = if result.is_some() { 1 } else { 0 };
     assert!(H.results_rust_dropped + held == H.lifted, "lifted results owned exactly once");
-
-    // ---- vacuity witnesses --------------------------------------------
-    kani::cover!(H.cancel_answer == STARTED_CANCELLED, "cancel won before start");
-    kani::cover!(H.cancel_answer == RETURNED_CANCELLED && H.dealloc_lists == 1, "cancel won after start");
-    kani::cover!(H.cancel_answer == RETURNED, "cancel lost: callee returned");
-    kani::cover!(result.is_some() && H.handle == 0, "returned immediately");
-    kani::cover!(
-        result.is_some() && mt::L[0].n_delivered == 2,
-        "starting -> started -> returned, polled to completion"
-    );
-    kani::cover!(
-        result.is_none() && H.returned && H.cancel_calls == 0 && H.handle != 0,
-        "dropped with a queued RETURNED event"
-    );
-    kani::cover!(
-        result.is_none() && H.cancel_calls == 1 && mt::L[0].n_delivered == 1 && H.cancel_answer == RETURNED_CANCELLED,
-        "dropped with a queued STARTED event, then cancelled"
-    );
-    kani::cover!(!polled, "dropped before the first poll");
-    kani::cover!(spurious && result.is_some(), "re-polled without an event, later completed");
-
     core::mem::forget(result);
 }
 
 macro_rules! c21 {
-    ($name:ident, $unwind:expr, $v:expr, $rounds:expr, $size:expr, $roff:expr, $d:expr) => {
+    ($name:ident, $unwind:expr, $size:expr, $roff:expr, $version:expr, [$($script:tt)*], $covers:expr) => {
         #[kani::proof]
         #[kani::unwind($unwind)]
         #[kani::stub(wit_bindgen::rt::async_support::cabi::wasip3_task_set, crate::mock_task::stub_task_set)]
         #[kani::stub(wit_bindgen::rt::async_support::subtask::cancel, stub_subtask_cancel)]
         #[kani::stub(wit_bindgen::rt::async_support::subtask::drop, stub_subtask_drop)]
         fn $name() {
-            unsafe { run::<$size, $roff>($v, $rounds, $d) }
+            unsafe {
+                scenario!($size, $roff, $version; $($script)*);
+                let f: fn() = $covers;
+                f();
+            }
         }
     };
 }
 
-// quick tier: 2 rounds (enough for STARTING -> STARTED -> RETURNED polled to
-// completion), 2-byte area (unwind 3 = two bytes poisoned by `Cleanup::drop`
-// + exit test; the harness loop runs <= 2 times)
-c21!(c21_subtask_v1_flat, 3, 1, 2, 0, 0, Some(false));
-c21!(c21_subtask_v1_indirect, 3, 1, 2, 2, 1, Some(false));
-c21!(c21_subtask_v2_flat, 3, 2, 2, 0, 0, None);
-c21!(c21_subtask_v2_indirect, 3, 2, 2, 2, 1, None);
-// thorough tier: 3 rounds, 8-byte area with results at offset 4
-c21!(c21_deep_subtask_v1_flat, 4, 1, 3, 0, 0, Some(false));
-c21!(c21_deep_subtask_v1_indirect, 9, 1, 3, 8, 4, Some(false));
-c21!(c21_deep_subtask_v2_flat, 4, 2, 3, 0, 0, None);
-c21!(c21_deep_subtask_v2_indirect, 9, 2, 3, 8, 4, None);
+// ---- vacuity witnesses (one set per schedule) ---------------------------
+fn cov_d() {
+    unsafe {
+        kani::cover!(H.lowered == 0 && H.params_rust_dropped == 1, "dropped before the first poll");
+    }
+}
+fn cov_pd() {
+    unsafe {
+        kani::cover!(H.handle == 0 && H.lifted == 1, "returned immediately");
+        kani::cover!(H.cancel_answer == STARTED_CANCELLED, "cancel won before start");
+        kani::cover!(H.cancel_answer == RETURNED_CANCELLED && H.dealloc_lists == 1, "cancel won after start");
+        kani::cover!(H.cancel_answer == RETURNED && H.lifted == 1, "cancel lost: callee returned");
+        kani::cover!(mt::L[0].clones_made > 0, "v2 task: clone taken");
+    }
+}
+fn cov_ped() {
+    unsafe {
+        kani::cover!(
+            H.returned && H.cancel_calls == 0 && H.handle != 0 && H.results_rust_dropped == 1,
+            "dropped with a queued RETURNED event: results lifted and dropped, no cancel"
+        );
+        kani::cover!(
+            H.cancel_calls == 1 && mt::L[0].n_delivered == 1 && H.cancel_answer == RETURNED_CANCELLED,
+            "dropped with a queued STARTED event, then cancelled"
+        );
+        kani::cover!(
+            H.cancel_calls == 1 && mt::L[0].n_delivered == 1 && H.cancel_answer == RETURNED,
+            "dropped with a queued STARTED event, cancel lost"
+        );
+    }
+}
+fn cov_pepd() {
+    unsafe {
+        kani::cover!(H.returned && H.cancel_calls == 0 && H.results_rust_dropped == 0, "one event, polled to completion");
+        kani::cover!(H.cancel_calls == 1 && mt::L[0].n_register == 2, "started, re-registered, then dropped: cancel");
+    }
+}
+fn cov_peped() {
+    unsafe {
+        kani::cover!(mt::L[0].n_delivered == 2 && H.results_rust_dropped == 1, "STARTED polled, RETURNED queued at drop");
+    }
+}
+fn cov_pepepd() {
+    unsafe {
+        kani::cover!(
+            mt::L[0].n_delivered == 2 && H.results_rust_dropped == 0 && H.lifted == 1,
+            "starting -> started -> returned, polled to completion"
+        );
+    }
+}
+fn cov_ppd() {
+    unsafe {
+        kani::cover!(mt::L[0].n_register == 2 && H.cancel_calls == 1, "re-polled without an event, then dropped");
+    }
+}
+fn cov_ppepd() {
+    unsafe {
+        kani::cover!(mt::L[0].n_register == 2 && H.lifted == 1 && H.cancel_calls == 0, "re-polled without an event, later completed");
+    }
+}
+
+// Quick tier: 2-byte area (one parameter byte, one result byte); unwind 3 =
+// the two bytes `Cleanup::drop` poisons + loop exit.  Task ABI version and
+// clone behaviour symbolic.
+c21!(c21_flat_d, 3, 0, 0, None, [], cov_d);
+c21!(c21_flat_pd, 3, 0, 0, None, [P], cov_pd);
+c21!(c21_flat_ped, 3, 0, 0, None, [P E], cov_ped);
+c21!(c21_flat_pepd, 3, 0, 0, None, [P E P], cov_pepd);
+c21!(c21_flat_peped, 3, 0, 0, None, [P E P E], cov_peped);
+c21!(c21_flat_pepepd, 3, 0, 0, None, [P E P E P], cov_pepepd);
+c21!(c21_flat_ppd, 3, 0, 0, None, [P P], cov_ppd);
+c21!(c21_flat_ppepd, 3, 0, 0, None, [P P E P], cov_ppepd);
+
+c21!(c21_ind_d, 3, 2, 1, None, [], cov_d);
+c21!(c21_ind_pd, 3, 2, 1, None, [P], cov_pd);
+c21!(c21_ind_ped, 3, 2, 1, None, [P E], cov_ped);
+c21!(c21_ind_pepd, 3, 2, 1, None, [P E P], cov_pepd);
+c21!(c21_ind_peped, 3, 2, 1, None, [P E P E], cov_peped);
+c21!(c21_ind_pepepd, 3, 2, 1, None, [P E P E P], cov_pepepd);
+c21!(c21_ind_ppd, 3, 2, 1, None, [P P], cov_ppd);
+c21!(c21_ind_ppepd, 3, 2, 1, None, [P P E P], cov_ppepd);
